@@ -31,6 +31,17 @@ impl<'a, T: DDNNFPtr<'a>> Ite<T> {
         // prove correct than they are to debug or test. This is one of those
         // parts.  Is it proven correct? Unfortunately, no.
 
+        #[cfg(rsdd_verif)]
+        {
+            use crate::verif::{probe, Probe};
+            if f == h {
+                probe(Probe::IteIntroConstFEqH)
+            } else if f == h.neg() {
+                probe(Probe::IteIntroConstFEqNegH)
+            } else if f == g.neg() {
+                probe(Probe::IteIntroConstFEqNegG)
+            }
+        }
         // introduce constants
         let (f, g, h) = match (f, g, h) {
             (f, g, h) if f == h => (f, g, T::false_ptr()),
@@ -49,6 +60,21 @@ impl<'a, T: DDNNFPtr<'a>> Ite<T> {
             _ => (),
         };
 
+        #[cfg(rsdd_verif)]
+        {
+            use crate::verif::{probe, Probe};
+            if g.is_true() && order(h, f) {
+                probe(Probe::IteReorder1)
+            } else if h.is_false() && order(g, f) {
+                probe(Probe::IteReorder2)
+            } else if h.is_true() && order(g, f) {
+                probe(Probe::IteReorder3)
+            } else if g.is_false() && order(h, f) {
+                probe(Probe::IteReorder4)
+            } else if g == h.neg() && order(g, f) {
+                probe(Probe::IteReorder5)
+            }
+        }
         // now, attempt to reorder the ITE to place the top-most node first in the order
         let (f, g, h) = match (f, g, h) {
             (f, g, h) if g.is_true() && order(h, f) => (h, g, f),
@@ -59,6 +85,19 @@ impl<'a, T: DDNNFPtr<'a>> Ite<T> {
             _ => (f, g, h),
         };
 
+        #[cfg(rsdd_verif)]
+        {
+            use crate::verif::{probe, Probe};
+            if f.is_neg() && !h.is_neg() {
+                probe(Probe::IteStd1)
+            } else if !f.is_neg() && g.is_neg() {
+                probe(Probe::IteStd2)
+            } else if f.is_neg() && h.is_neg() {
+                probe(Probe::IteStd3)
+            } else {
+                probe(Probe::IteStd4)
+            }
+        }
         // now, standardize for negation: ensure f and g are non-negated
         match (f, g, h) {
             (f, g, h) if f.is_neg() && !h.is_neg() => IteChoice {
